@@ -61,6 +61,11 @@ def rule_a(repo, chk, p, ex):
             if f.name == '_parse_trailers':
                 continue  # operates on the remainder handed over by the chunk-size parser (same joined buffer)
             n_search += 1
+            if c.func.attr in ('find', 'index') and len(c.args) > 1:
+                seplen = len(c.args[0].value)
+                okr, why = _start_offset_ok(f, c.args[1], hay, seplen)
+                chk.ob('a', f.ref, f'a search that does not start at 0 starts early enough to find a separator straddling the previous end of data '
+                                   f'(at most scanned − {seplen - 1})', okr, loc(f, c), detail=why, discr=f'search-start:{f.name}:{src(c.args[0])}')
             ok, detail = _derives_from_join(repo, p, f, g, c, hay, depth=2)
             chk.ob('a', f.ref, f'the framing search `{src(c)[:50]}` looks at the joined carry buffer', ok, loc(f, c), detail=detail,
                    discr=f'haystack:{f.name}:{src(c.args[0])}:{hay}')
@@ -91,6 +96,21 @@ def rule_a(repo, chk, p, ex):
                 dup = Q.path_to(par, hit[0])
         chk.ob('a', ex.ref, 'appended data is not appended a second time (it is re-bound first)', dup is None, loc(ex, a.ast),
                path=pat.path_lines(dup, a) if dup else None, discr=f'no-double-append:{_phase_of(a)}')
+
+
+def _start_offset_ok(f, start, hay, seplen):
+    """A resume offset `V - k` (optionally clamped by max(0, …)) with k ≥ len(separator) − 1 is fine; anything else is not."""
+    e = start
+    if isinstance(e, ast.Constant) and e.value == 0:
+        return True, 'starts at 0'
+    if isinstance(e, ast.Call) and call_name(e) == 'max' and len(e.args) == 2:
+        e = [a for a in e.args if not (isinstance(a, ast.Constant) and a.value == 0)][0] if any(isinstance(a, ast.Constant) and a.value == 0 for a in e.args) else e
+    if isinstance(e, ast.BinOp) and isinstance(e.op, ast.Sub) and isinstance(e.right, ast.Constant) and isinstance(e.right.value, int):
+        k = e.right.value
+        if k >= seplen - 1:
+            return True, f'resumes {k} bytes before `{src(e.left)}`'
+        return False, f'`{src(start)}` resumes only {k} byte(s) before the previously scanned end; a {seplen}-byte separator may straddle it by {seplen - 1}'
+    return False, f'start offset `{src(start)}` is not of the form scanned − k'
 
 
 def _phase_of(n):
@@ -237,6 +257,22 @@ def rule_b(repo, chk, p, ex):
     okd = len(dec) == 1 and src(dec[0].ast.value) == 'len(body_part)' and all(Q.reachable_without(gb, a, avoid_node=lambda m: m in dec) is None
                                                                               for a in appends if not any(k == 'try' for k, _x in a.ctx) and Q.reaches(dec[0], a))
     chk.ob('b', pb.ref, 'the remaining length is reduced by exactly the number of body bytes consumed', okd, loc(pb, pb.node), discr='clen-decrement')
+    # chunk step: execute() reads a result of 0 as "last chunk"; a data chunk must therefore never report 0
+    zero_ok = [n for n in gb.nodes if n.kind == 'stmt' and isinstance(n.ast, ast.Return) and n.ast.value is not None and src(n.ast.value) == 'size']
+    for r in [n for n in gb.nodes if n.kind == 'stmt' and isinstance(n.ast, ast.Return) and n.ast.value is not None and src(n.ast.value).startswith('len(')
+              and Q.reachable_without(gb, n, avoid_node=lambda m: m in appends) is None]:
+        xv = src(r.ast.value)[4:-1]
+        guards = [e for n in gb.nodes if n.kind == 'test' for e in n.succ
+                  if (lambda fct: fct is not None and fct[0] == f'len({xv})' and fct[1] == '>=' and fct[2].isdigit() and int(fct[2]) >= 1)(pat.compare_fact(n.ast, e.kind))]
+        okz = False
+        for e in guards:
+            # the guard dominates the return and the measured variable is not re-bound in between
+            if pat.guarded_by(gb, r, lambda e2, e=e: e2 is e) is None:
+                seen, _ = Q.search([e.dst], avoid_node=lambda m: xv in Q.node_defs(m))
+                if r in seen:
+                    okz = True
+        chk.ob('b', pb.ref, 'after a data chunk the step never reports 0 (0 is reserved for the last chunk): the reported length is the one tested to be positive',
+               okz, loc(pb, r.ast), detail=f'`{r.text}`', discr='chunk-step-nonzero')
     short = [e for n in gb.nodes if n.kind == 'test' for e in n.succ if e.kind == 'T' and ('len(rest) < size' in src(n.ast) or src(n.ast) == 'size is None')]
     bad = None
     for e in short:
